@@ -409,9 +409,49 @@ G_PROBE = {"sim": "G", "conn": "jax", "mode": "eager", "d": 2, "cutoff": 3, "dty
            "gates": [{"g": "Squeezing", "modes": [1], "p": {"r": 0.3, "phi": 0.4}},
                      {"g": "Beamsplitter", "modes": [1, 0], "p": {"theta": 0.3, "phi": 0.9}}]}
 # regression probes that keep the bucket of the search part (fixed findings)
-PASSTHROUGH = {"regress:G:jax:fidelity+wigner_function"}
+PASSTHROUGH = {"regress:G:jax:fidelity+wigner_function", "probe:graph-modes",
+               "probe:primitives"}
+
+
+def _pf(conn, mode, d, cutoff, prep, gates):
+    return {"sim": "PF", "conn": conn, "mode": mode, "d": d, "cutoff": cutoff, "dtype": "f64",
+            "hbar": 2.0, "prep": prep, "gates": gates}
+
+
+_DISP = {"g": "Displacement", "modes": [0], "p": {"r": 0.3, "phi": 0.7}}
+_SQ = {"g": "Squeezing", "modes": [0], "p": {"r": 0.3, "phi": 0.7}}
+_BS = {"g": "Beamsplitter", "modes": [1, 0], "p": {"theta": 0.4, "phi": 1.1}}
+_IF = {"g": "Interferometer", "modes": [1, 0], "p": {"seed": 7, "kind": "haar"}}
+_N11 = {"kind": "number", "occ": [1, 1]}
 REGIONS = {
     "regress:G:jax:fidelity+wigner_function": [G_PROBE],
+    # fixed anchors of the compiled modes: they always run, whatever the wall-clock budget
+    # leaves of the generated compiled-mode cases on a loaded machine
+    "probe:primitives": [
+        {"prim": "polar", "conn": "jax", "kind": "symplectic", "n": 4, "seed": 3,
+         "side": "default", "graph": False},
+        {"prim": "polar", "conn": "jax", "kind": "symplectic", "n": 4, "seed": 3,
+         "side": "left", "graph": True},
+        {"prim": "polar", "conn": "tf", "kind": "symplectic", "n": 4, "seed": 3,
+         "side": "left", "graph": False},
+        {"prim": "polar", "conn": "tf", "kind": "general", "n": 3, "seed": 4,
+         "side": "right", "graph": True},
+        {"prim": "fock_rep", "conn": "jax", "kind": "haar", "n": 2, "seed": 5, "cutoff": 4,
+         "graph": False},
+        {"prim": "fock_rep", "conn": "tf", "kind": "haar", "n": 2, "seed": 5, "cutoff": 4,
+         "graph": True},
+        {"prim": "assign", "conn": "tf", "kind": "general", "n": 3, "seed": 6,
+         "form": "index_matrix", "graph": True},
+        {"prim": "assign", "conn": "tf", "kind": "general", "n": 2, "seed": 6,
+         "form": "index_matrix_batch", "graph": False},
+    ],
+    "probe:graph-modes": [
+        _pf("tf", "decorated", 1, 4, {"kind": "vacuum"}, [_DISP]),
+        _pf("tf", "function", 1, 4, {"kind": "vacuum"}, [_SQ]),
+        _pf("tf", "decorated", 2, 3, _N11, [_BS, _IF]),
+        _pf("tf", "function", 2, 3, _N11, [_IF, _DISP]),
+        _pf("jax", "jit", 2, 3, _N11, [_DISP, _BS]),
+    ],
     SQ2_BUCKET: [
         # both Euler decompositions are valid; takagi's U is not unique for the repeated
         # singular value of Squeezing2 and the truncated gate sequence depends on the choice
@@ -471,7 +511,10 @@ def region_cases(tier):
 
 def prop_region(case, ctx):
     try:
-        prop_program(case, ctx)
+        if "prim" in case:
+            prop_primitive(case, ctx)
+        else:
+            prop_program(case, ctx)
     except Violation as v:
         if case["_region"] in PASSTHROUGH:
             raise
